@@ -174,8 +174,10 @@ CLAIMS = {
               'boundary, in particular in the state the failed operation leaves), C17_no_wrong_bytes, C17_rollback_is_noop. TIE: OSError(EIO) / '
               'OperationalError injected at EVERY gated call of 12 (thorough 28) operation variants (~230 injections quick); afterwards raw + new-handle '
               'examination, stale locks removed, rerun must complete and end in the same key->bytes map as an uninterrupted run with clean '
-              'validation (repack excepted, as the property says). PARTIAL: handlers (finally blocks) are not modelled as programs; the '
-              'monitor is applied to uninterrupted traces, fault runs are judged by the direct oracles.'),
+              'validation (repack excepted, as the property says); the intercepted trace of EVERY fault run (events before the fault + what the '
+              'handlers did) is replayed through Store.apply_ev, must end in the folder the failed operation left (an unreferenced tail flushed by '
+              'the interpreter finaliser is tolerated, cf. C03_tolerates_unreferenced_tail) and must be accepted by the verified monitor. '
+              'PARTIAL: handlers (finally blocks) are not modelled as Gallina programs, so there is no all-inputs theorem for fault runs.'),
         design='4/C17'),
     'C18': dict(
         technique='Coq descriptor-tracking theorem + balance/bound for the add-loose program + fd census, tracemalloc, trace write sizes',
